@@ -287,13 +287,18 @@ def run_property(pid, args, contracts, seed):
             extra = json.loads(last[-1]) if last else dict(error="no json from bounded harness", stderr=p.stderr[-2000:])
             if "error" in extra:
                 crashes.append("bounded/%s.py: %s" % (pid.lower(), extra))
+            seen_kf = set()
             for f in extra.get("failures", []):
                 fe = _cli.finding_for(kf, pid, f.get("contract", "bounded"), f.get("obligation", "?"))
                 if fe is not None:
-                    msg = "KNOWN-FINDING: property=%s %s [%s / %s]" % (pid, fe["what"], f.get("contract"), f.get("obligation"))
-                    if msg not in known_printed:
-                        known_printed.append(msg)
+                    key = (fe.get("contract"), fe.get("obligation"))
+                    if key not in seen_kf:       # one line per listed finding (the first matching instance is named)
+                        seen_kf.add(key)
+                        known_printed.append("KNOWN-FINDING: property=%s %s [bounded: %s / %s]" % (pid, fe["what"], f.get("contract"), f.get("obligation")))
                     continue
+                f = dict(f)
+                f.setdefault("confirmed", True)
+                f["note"] = "found by the bounded stand-in bounded/%s.py on the real (JIT) code" % pid.lower()
                 path = _write_replay(pid, f.get("contract", "bounded"), f.get("obligation", "case"), f)
                 violations.append("VIOLATION property=%s replay=%s" % (pid, path))
         except Exception:
